@@ -681,8 +681,12 @@ C18Checks(r, st) ==
 TreeOf(r, st) == st.heap[r.r]
 
 Checks(r, st) ==
-  IF r.op \in {"begin", "end", "config"} THEN {}
+  IF r.op \in {"begin", "config"} \/ (r.op = "end" /\ "asan" \notin DOMAIN r) THEN {}
+  \* a worker ended by an AddressSanitizer report (the sanitizer build exits with status 66)
   ELSE IF r.op = "died" THEN {<<"C17", "no_abort_or_hang">>}
+                             \cup (IF r.status = "exit status: 66" THEN {<<"C19", "no_sanitizer_report">>} ELSE {})
+  \* a program that ran to its end under the sanitizer
+  ELSE IF r.op = "end" THEN {<<"C19", "no_sanitizer_report">>}
   ELSE IF r.oc = "harness" THEN {<<"TOOL", "harness_error">>}
   ELSE IF ~Ok(r) THEN {<<"C17", "no_panic">>} \cup C19Checks(r)
   ELSE {<<"C17", "no_panic">>} \cup IxChecks(r, st) \cup C10Checks(r, st) \cup C14Checks(r, st) \cup C19Checks(r)
@@ -802,6 +806,7 @@ Holds(c, r, st) ==
   LET t == TreeOf(r, st) IN
   CASE c[1] = "TOOL" -> FALSE
     [] c = <<"C17", "no_abort_or_hang">> -> FALSE
+    [] c = <<"C19", "no_sanitizer_report">> -> r.op = "end"
     [] c = <<"C17", "no_panic">> -> Ok(r)
     [] c = <<"C07", "source_is_text">> -> r.out.t = TextOf(t)
     [] c = <<"C05", "source_is_splice">> -> r.out.t = TextOf(t)
